@@ -1,6 +1,7 @@
 /- line-protocol driver for the C15 model (Mathlib-free) -/
 import Ipv8.Base.Proto
 import Ipv8.C15.Model
+import Ipv8.C15.Wire
 open Ipv8 Ipv8.C15 Ipv8.Proto
 
 /-- driver tokens: `none` is any byte string this node never issued -/
@@ -104,6 +105,12 @@ def step (st : DState) (toks : List String) : DState × String :=
       let (n', resp) := st.node.storePeerReq drvCrypto { addr := addr, pk := pk, mid := mid } tok target
       ({ st with node := n' }, if resp then "resp=1" else "resp=0")
     | _, _, _, _, _ => bad
+  | ["ping", nid] =>
+    match nid.toNat? with
+    | some nid =>
+      let (n', resp) := st.node.pingReq nid
+      ({ st with node := n' }, if resp then "resp=1" else "resp=0")
+    | none => bad
   | ["dump", key] =>
     match key.toNat? with
     | some key => (st, showNatList (st.node.store.get key 0 none))
@@ -122,6 +129,31 @@ def step (st : DState) (toks : List String) : DState × String :=
   | "crawl" :: lists =>
     match lists.mapM natList? with
     | some ls => (st, showNatList (crawlValues ls))
+    | none => bad
+  | ["unserb", hex, keyok, siglen, valid] =>
+    match ofHex? hex, keyok.toNat?, siglen.toNat?, valid.toNat? with
+    | some v, some keyok, some siglen, some valid =>
+      let B : BCrypto := { keyOk := fun _ => keyok != 0, sigLen := fun _ => siglen, verify := fun _ _ _ => valid != 0 }
+      let q := match v with
+        | t :: _ =>
+          if t.toNat = Gen.entryStrSigned then
+            match readSigned v with
+            | some (_, _, pk, _) => s!" q={toHex pk}:{(pyButLast v siglen).length}:{(pyLast v siglen).length}"
+            | none => ""
+          else ""
+        | [] => ""
+      (st, (match unserializeB B v with
+            | .raise => "raise"
+            | .none => "none"
+            | .ok d pk ver => s!"ok {toHex d} {match pk with | some p => toHex p | none => "-"} {ver}") ++ q)
+    | _, _, _, _ => bad
+  | ["serb", data, ver, pk, sig] =>
+    match ofHex? data, ver.toNat?, ofHex? pk, ofHex? sig with
+    | some data, some ver, some pk, some sig => (st, toHex (serializeSigned (fun _ => sig) data ver pk))
+    | _, _, _, _ => bad
+  | ["serp", data] =>
+    match ofHex? data with
+    | some data => (st, toHex (serializePlain data))
     | none => bad
   | ["maxage", nc] =>
     match nc.toNat? with
